@@ -1432,6 +1432,11 @@ impl ASN1Value {
                             next
                         ));
                     }
+                    // The referenced value may not be linked yet: an identifier that names no
+                    // value assignment is a named number or an enumeral of its type
+                    if !matches!(tlds.get(next), Some(ToplevelDefinition::Value(_))) {
+                        break;
+                    }
                     visited.push(next);
                     referenced = tlds.get(next);
                 }
